@@ -110,6 +110,16 @@ CHECKS = {
         "Trusts vp/evalref.py and the SQLite shims for strpos/concat/floor/ceil/regexp (documented meaning, no OData knowledge).",
         "DESIGN.md §6 C03",
     ),
+    "C04": (
+        "Hypothesis relational-grammar generation of filters x generated database instances on both ORMs + exhaustive small-shape tier; reference evaluator over the object graph and Django = SQLAlchemy differential",
+        "Filters with to-one paths (depth 1-3, NULL foreign keys), any()/any(p)/all(p) over one-to-many, many-to-many "
+        "and path-reached collections, nested lambdas and free and/or/not are generated together with small database "
+        "instances; the same instance is loaded into Django and SQLAlchemy, parent ids from three entry points are "
+        "compared with an object-graph evaluator on decided parents and with each other. Every collection x "
+        "lambda form x instance shape with <= 2 parents and 0-2 children is enumerated.",
+        "Trusts vp/relational.py; bodies range over non-null child columns; SQLite only.",
+        "DESIGN.md §6 C04",
+    ),
 }
 
 ALL = ["C%02d" % i for i in range(1, 21)]
